@@ -140,7 +140,34 @@ func daemonFwd(r *rng, n int) error {
 				bqs = append(bqs, &bq{q: q, qn: wireName(q[12:])})
 			}
 			var wgb sync.WaitGroup
-			for _, b := range bqs {
+			viaTCP := 0
+			if i%6 == 1 {
+				viaTCP = 8 // half of these bursts: the first eight questions pipelined on ONE TCP connection
+			}
+			if viaTCP > 0 {
+				var raw []byte
+				for _, b := range bqs[:viaTCP] {
+					raw = append(raw, frame(b.q)...)
+				}
+				wgb.Add(1)
+				go func() {
+					defer wgb.Done()
+					st, _ := tcpExchange(listen, raw, viaTCP, 1500*time.Millisecond, time.Millisecond)
+					for len(st) >= 2 {
+						l := int(st[0])<<8 | int(st[1])
+						if len(st) < 2+l {
+							break
+						}
+						for _, b := range bqs[:viaTCP] {
+							if l >= 2 && st[2] == b.q[0] && st[3] == b.q[1] {
+								b.n++
+							}
+						}
+						st = st[2+l:]
+					}
+				}()
+			}
+			for _, b := range bqs[viaTCP:] {
 				wgb.Add(1)
 				go func(b *bq) {
 					defer wgb.Done()
